@@ -155,6 +155,8 @@ def py_spec(c, o, base):
         return False, 'kernprof did not run the program: %s %s' % (o['kind'], o['detail'])
     if o['rec']['argv'] != [c['target']] + exp_rest:
         return False, 'program saw %r, expected %r' % (o['rec']['argv'], [c['target']] + exp_rest)
+    if o['rec'].get('argv_after_decorating', o['rec']['argv']) != o['rec']['argv']:
+        return False, 'the importable decorator changed sys.argv under kernprof: %r' % (o['rec'].get('argv_after_decorating'),)
     if o['ns'] != base['ns'] or o['files'] != base['files'] or o['viewed'] != base['viewed'] \
             or o['rec']['profile_type'] != base['rec']['profile_type']:
         return False, 'kernprof configuration changed with the program arguments'
